@@ -1,5 +1,15 @@
-"""C08 - activity analysis matches Python's binding rules (dynamic clause: spec/Activity.tla over MiniPy)."""
-from .. import mpmon, mpsig
+"""C08 - activity analysis matches Python's binding rules.
+
+Static clause: spec/Scoping.tla enumerates every chain of up to three nested scopes (function / lambda / class /
+comprehension) with every menu of occurrences of a name (parameter, assignment kinds, import, def, del, use,
+global / nonlocal declarations) and classifies the name per function by the language-reference rules; each
+state is rendered to source and compared three ways: specification = symtable.symtable (model validation) =
+the sets reported by the real activity analysis.
+Dynamic clause: spec/Activity.tla over MiniPy (per-step read / rebind / delete sets).
+"""
+from .. import common, mpmon, mpsig, tlc, scoping
+
+SCFG = "SPECIFICATION Spec\nINVARIANT Emit\nCHECK_DEADLOCK FALSE\n"
 
 
 def classify(p, b, claims):
@@ -9,7 +19,72 @@ def classify(p, b, claims):
                 n, mpsig.kind(p, n), {'read': 'read', 'modified': 'rebound', 'deleted': 'deleted'}[kind], nm, kind))
 
 
+def static_clause(rep):
+    res = tlc.run_tlc('Scoping', SCFG, workers=8, timeout=600, name='scoping').require_ok('Scoping')
+    rep.add_tlc(res)
+    states = [r for r in res.json if isinstance(r, dict) and 'K' in r]
+    if len(states) != res.distinct or len(states) < 10000:
+        raise common.MachineryError('Scoping.tla: %d states printed, %d distinct' % (len(states), res.distinct))
+    nlegal = nfun = 0
+    for r in states:
+        src = scoping.render(r['K'], r['O'])
+        sv = scoping.symtable_view(src)
+        if (sv is not None) != r['legal']:
+            raise common.MachineryError('Scoping.tla disagrees with CPython on legality (spec legal=%s):\n%s' % (r['legal'], src))
+        if sv is None:
+            continue
+        nlegal += 1
+        for i in range(3):
+            if r['K'][i] == 'function' and r['cls'][i] != sv.get('s%d' % (i + 1)):
+                raise common.MachineryError('Scoping.tla disagrees with symtable: s%d spec=%s symtable=%s\n%s' % (
+                    i + 1, r['cls'][i], sv.get('s%d' % (i + 1)), src))
+        try:
+            av = scoping.activity_view(src)
+        except Exception as e:
+            rep.violation('c08:static:analysis-error:%s' % type(e).__name__, 'activity analysis fails: %r' % (e,), dict(source=src))
+            continue
+        for i in range(3):
+            if r['K'][i] != 'function':
+                continue
+            nfun += 1
+            exp, got = r['cls'][i], av.get('s%d' % (i + 1))
+            if exp in ('param', 'global_explicit', 'nonlocal', 'local'):
+                ok = {exp}
+            elif exp in ('free', 'global_implicit'):
+                ok = {'free-or-global'}
+            else:
+                ok = {'absent'} | ({'free-or-global'} if r['gref'][i] else set())
+            if got not in ok:
+                inner = [(r['K'][j], sorted(r['O'][j])) for j in range(i + 1, 3) if r['K'][j] != 'none']
+                why = describe(r, i)
+                rep.violation('c08:static:%s-reported-as-%s:%s' % (exp, got, why),
+                              'CPython classifies v in s%d as %s, the activity analysis reports %s (%s)' % (i + 1, exp, got, why),
+                              dict(source=src, scope='s%d' % (i + 1), cpython=exp, activity=got, chain=[r['K'], r['O']]))
+        rep.validated()
+    rep.set('scope_chains_enumerated', len(states))
+    rep.set('legal_chains', nlegal)
+    rep.set('function_scopes_compared', nfun)
+    rep.set('scoping_exhaustive_for_menu', True)
+    rep.sample(dict(chain=[states[len(states) // 2]['K'], states[len(states) // 2]['O']],
+                    source=scoping.render(states[len(states) // 2]['K'], states[len(states) // 2]['O'])))
+
+
+def describe(r, i):
+    """Which feature of the nested scopes is responsible (coarse, stable)."""
+    for j in range(i + 1, 3):
+        if r['K'][j] == 'none':
+            break
+        if 'N' in r['O'][j]:
+            return 'nonlocal-declared-in-nested-%s' % r['K'][j]
+        if 'P' in r['O'][j]:
+            return 'parameter-of-nested-%s' % r['K'][j]
+        if 'G' in r['O'][j]:
+            return 'global-declared-in-nested-%s' % r['K'][j]
+    return 'own-occurrences:' + '+'.join(sorted(r['O'][i])) if r['O'][i] else 'nested-use'
+
+
 def run(rep):
+    static_clause(rep)
     mpmon.run_monitor(rep, 'Activity', classify)
 
 
